@@ -1361,6 +1361,7 @@ func ruleC16(c *Ctx) {
 // [Child[0], signature, Child[1:]...] — the signature directly after the Issuer and every built child kept once, in order.
 func signPlacement(c *Ctx, rule string) {
 	var shapes []string
+	shapeOf := map[string]map[string]bool{}
 	for _, fn := range []string{"(*SAMLServiceProvider).SignAuthnRequest", "(*SAMLServiceProvider).SignLogoutRequest", "(*SAMLServiceProvider).SignLogoutResponse"} {
 		res := c.kernel(fn, "*", "-(*SAMLServiceProvider).SigningContext")
 		if res == nil {
@@ -1392,9 +1393,16 @@ func signPlacement(c *Ctx, rule string) {
 			if childStore != nil {
 				got = strings.Join(seqSegments(t, childStore.Val), " , ")
 			}
+			// `if len(ret.Child) > 1 { append(ret.Child[1:]...) }`: on the path without the append the tail is empty
+			if a := t.atoms(); got == ret+".Child[0] , "+sig && (a["!(1 < len("+ret+".Child))"] || a["len("+ret+".Child) < 2"] || a["len("+ret+".Child) == 1"]) {
+				got = want
+			}
 			c.check(inserted || got == want, rule, fname, "signature inserted at child index 1 of the copy", pos, "[Child[0], sig, Child[1:]...]",
 				"signature placement is ["+got+"], want ["+want+"] (immediately after the Issuer, every other child kept)")
-			shapes = append(shapes, strings.ReplaceAll(got, "", ""))
+			if shapeOf[fname] == nil {
+				shapeOf[fname] = map[string]bool{}
+			}
+			shapeOf[fname][got] = true
 			sigOK, k := false, false
 			for _, e := range t.calls("(*dsig.SigningContext).ConstructSignature") {
 				sigOK, k = t.eqFact(e.Res[1], nilOf(nil))
@@ -1402,6 +1410,9 @@ func signPlacement(c *Ctx, rule string) {
 			}
 			c.check(sigOK && k, rule, fname, "signature construction error checked", pos, "err == nil", "returns a signed element although ConstructSignature's error is not known nil")
 		}
+	}
+	for _, fn := range sortedKeys(shapeOf) {
+		shapes = append(shapes, strings.Join(sortedStrings(shapeOf[fn]), " / "))
 	}
 	same := len(shapes) == 3 && shapes[0] == shapes[1] && shapes[1] == shapes[2]
 	c.check(same, rule, "Sign*", "the three Sign* functions agree", "-", "identical placement", fmt.Sprintf("sibling Sign* functions place the signature differently: %v", shapes))
